@@ -458,6 +458,12 @@ class AgentSchedulingComponent(rpu.AgentComponent):
         # FIXME: remove once Slot structure settles
         slots = rpu.convert_slots_to_new(slots)
 
+        # Resolve and check all slots before any of them is applied: slots can
+        # be supplied by the application, and a set of slots which names a node,
+        # core or GPU we do not have must not leave the slots in front of the
+        # invalid one changed (nobody would ever change them back).
+        resolved = list()
+
         # for node_name, node_index, cores, gpus in slots['ranks']:
         for slot in slots:
 
@@ -479,6 +485,18 @@ class AgentSchedulingComponent(rpu.AgentComponent):
 
             if not node_found:
                 raise RuntimeError('inconsistent node information')
+
+            for core in slot['cores']:
+                if not 0 <= core['index'] < len(node['cores']):
+                    raise RuntimeError('inconsistent core information')
+
+            for gpu in slot['gpus']:
+                if not 0 <= gpu['index'] < len(node['gpus']):
+                    raise RuntimeError('inconsistent gpu information')
+
+            resolved.append([node, slot])
+
+        for node, slot in resolved:
 
             # iterate over cores/gpus in the slot, and update state
             for core in slot['cores']:
